@@ -3,6 +3,7 @@ package c02
 
 import (
 	"fmt"
+	"math"
 	"os"
 	"strings"
 	"testing"
@@ -20,6 +21,37 @@ import (
 type Case struct {
 	FS  string   `json:"fs"`
 	Ops []fsx.Op `json:"ops"`
+	// As: the ops after the setup are issued by this non-administrator, who owns the file
+	// (MemFS only). The kernel then also drops set-user-ID/set-group-ID bits on writes.
+	As string `json:"as,omitempty"`
+}
+
+// asUser is the identity the current case runs under (nil: the administrator).
+var asUser *world.Ident
+
+func doStep(w *world.World, o fsx.Op) (fsx.Out, fsx.Out, *vt.Deviation) {
+	if asUser != nil {
+		return w.StepAs("C02", o, *asUser)
+	}
+	return w.Step("C02", o)
+}
+
+// becomeUser hands the file and the directory to u1 and makes /w writable by everybody;
+// from then on the case runs as u1.
+func becomeUser(c *vt.Ctx, w *world.World) bool {
+	ids, err := w.SetupUsers()
+	if err != nil {
+		c.Inconclusive("users: " + err.Error())
+		return false
+	}
+	u := ids["u1"]
+	for _, o := range []fsx.Op{{K: "Chmod", P: "/w", Perm: 0o777}, {K: "Chown", P: fileA, Uid: u.Uid, Gid: u.Gid}, {K: "Chown", P: dirD, Uid: u.Uid, Gid: u.Gid}} {
+		if _, _, dev := w.Step("C02", o); dev != nil {
+			return false
+		}
+	}
+	asUser = &u
+	return true
 }
 
 const (
@@ -92,7 +124,7 @@ func drawOp(t *rapid.T, w *world.World, st *state) fsx.Op {
 		case 0:
 			off = offsets(t, size, "off")
 		default:
-			off = rapid.SampledFrom([]int64{-size - 1, -size, -1, 0, 1, 7, size, 4096}).Draw(t, "off")
+			off = rapid.SampledFrom([]int64{-size - 1, -size, -1, 0, 1, 7, size, 4096, 1 << 62, math.MaxInt64, math.MinInt64}).Draw(t, "off")
 		}
 		return fsx.Op{K: k, H: h, Off: off, Whence: wh}
 	case "FTruncate":
@@ -146,7 +178,7 @@ func usable(o fsx.Op, st *state, everOpened [3]bool) bool {
 // side: offset, size/attributes through the handle, content through ReadAt.
 func step(c *vt.Ctx, w *world.World, o fsx.Op, st *state, ever *[3]bool, flagsOf *[3]int) *vt.Deviation {
 	c.Eval(1)
-	_, ok, dev := w.Step("C02", o)
+	_, ok, dev := doStep(w, o)
 	if dev != nil {
 		addFields(dev, o, st, flagsOf)
 		return dev
@@ -172,7 +204,7 @@ func step(c *vt.Ctx, w *world.World, o fsx.Op, st *state, ever *[3]bool, flagsOf
 			probes = append(probes, fsx.Op{K: "FReadAt", H: i, N: int(min64(st.size, 12000)) + 8, Off: 0})
 		}
 		for _, p := range probes {
-			_, _, dev := w.Step("C02", p)
+			_, _, dev := doStep(w, p)
 			if dev != nil {
 				dev.Fields["op"] = "probe:" + p.K + "-after-" + o.K
 				addFields(dev, o, st, flagsOf)
@@ -225,18 +257,26 @@ func addFields(d *vt.Deviation, o fsx.Op, st *state, flagsOf *[3]int) {
 	}
 }
 
-func runCase(c *vt.Ctx, kt *kernel.Thread, kind string, ops []fsx.Op) *vt.Deviation {
+func runCase(c *vt.Ctx, kt *kernel.Thread, kind string, ops []fsx.Op, as string) *vt.Deviation {
 	w, err := world.New(kt, kind, 0o022)
 	if err != nil {
 		c.Inconclusive("world: " + err.Error())
 		return nil
 	}
 	defer w.Close()
+	asUser = nil
+	defer func() { asUser = nil }()
 	st := &state{}
 	var ever [3]bool
 	var fl [3]int
-	for _, o := range ops {
+	for i, o := range ops {
+		if as != "" && i == len(setup) && !becomeUser(c, w) {
+			return nil
+		}
 		if dev := step(c, w, o, st, &ever, &fl); dev != nil {
+			if as != "" {
+				dev.Fields["actor"] = "user"
+			}
 			return dev
 		}
 	}
@@ -259,7 +299,7 @@ func TestCheck(t *testing.T) {
 			c.Inconclusive("replay " + f + ": " + err.Error())
 			continue
 		}
-		if dev := runCase(c, kt, cs.FS, cs.Ops); dev != nil {
+		if dev := runCase(c, kt, cs.FS, cs.Ops, cs.As); dev != nil {
 			if k := c.KnownFor(dev); k != nil {
 				c.WitnessLive(k.ID)
 			}
@@ -290,6 +330,17 @@ func TestCheck(t *testing.T) {
 				if dev := step(c, w, o, st, &ever, &fl); dev != nil {
 					return &vt.Failure{Dev: dev, Replay: Case{FS: kind, Ops: done}}
 				}
+			}
+			// a third of the MemFS histories run as the non-administrator who owns the file
+			as := ""
+			asUser = nil
+			defer func() { asUser = nil }()
+			if kind == "MemFS" && rapid.IntRange(0, 2).Draw(t, "as-user") == 0 {
+				if !becomeUser(c, w) {
+					return nil
+				}
+				as = "u1"
+				c.Label("as:user")
 			}
 			n := rapid.IntRange(1, c.Pick(40, 60)).Draw(t, "n")
 			maxOpen, pastEOF, pathMut := 0, false, false
@@ -325,7 +376,10 @@ func TestCheck(t *testing.T) {
 					pathMut = true
 				}
 				if dev := step(c, w, o, st, &ever, &fl); dev != nil {
-					return &vt.Failure{Dev: dev, Replay: Case{FS: kind, Ops: done}}
+					if as != "" {
+						dev.Fields["actor"] = "user"
+					}
+					return &vt.Failure{Dev: dev, Replay: Case{FS: kind, Ops: done, As: as}}
 				}
 			}
 			if maxOpen >= 2 && pastEOF && pathMut {
@@ -400,7 +454,7 @@ func exhaustive(c *vt.Ctx, kt *kernel.Thread, kind string) {
 						continue
 					}
 					cs := append(append([]fsx.Op{}, setup...), fsx.Op{K: "Open", P: target, Flag: fl, Perm: 0o644, H: 0}, o1, o2)
-					if dev := runCase(c, kt, kind, cs); dev != nil {
+					if dev := runCase(c, kt, kind, cs, ""); dev != nil {
 						c.Report(dev, Case{FS: kind, Ops: cs})
 					}
 					c.NonTrivial(vt.Hash64(kind, fsx.FlagString(fl), target, o1.String(), o2.String()))
@@ -410,6 +464,32 @@ func exhaustive(c *vt.Ctx, kt *kernel.Thread, kind string) {
 	}
 	c.Extra("exhaustive_"+kind, fmt.Sprintf("%d flag sets x {file, dir} x %d^2 op pairs on one handle", len(flags), len(ops)))
 	c.SetExhaustive(true)
+	if kind != "MemFS" {
+		return
+	}
+	// attributes: as the non-administrator who owns the file, every special-bit mode x every
+	// modifying op (the kernel drops set-user-ID and set-group-ID when the content changes)
+	mods := []fsx.Op{{K: "FWrite", H: 0, Data: "ab"}, {K: "FWrite", H: 0, Data: ""}, {K: "FWriteString", H: 0, Data: "s"}, {K: "FWriteAt", H: 0, Data: "x", Off: 1},
+		{K: "FWriteAt", H: 0, Data: "x", Off: 9}, {K: "FWriteAt", H: 0, Data: "xy", Off: 9}, {K: "FWriteAt", H: 0, Data: "x", Off: 20}, {K: "FWriteAt", H: 0, Data: "", Off: 1},
+		{K: "FTruncate", H: 0, Size: 3}, {K: "FTruncate", H: 0, Size: 10}, {K: "FTruncate", H: 0, Size: 12}, {K: "Truncate", P: fileA, Size: 3}, {K: "Truncate", P: fileA, Size: 10},
+		{K: "FChown", H: 0, Uid: -1, Gid: -1}, {K: "FRead", H: 0, N: 4}, {K: "FSync", H: 0}, {K: "Rename", P: fileA, P2: fileB}, {K: "Link", P: fileA, P2: fileB}}
+	n := 0
+	for _, perm := range []uint32{0o4755, 0o2755, 0o6755, 0o2745, 0o6711, 0o4644, 0o1755} {
+		for _, fl := range []int{os.O_RDWR, os.O_WRONLY, os.O_RDWR | os.O_APPEND} {
+			for _, m := range mods {
+				n++
+				if n%c.NShards != c.Shard {
+					continue
+				}
+				cs := append(append([]fsx.Op{}, setup...), fsx.Op{K: "Open", P: fileA, Flag: fl, Perm: 0o644, H: 0}, fsx.Op{K: "FChmod", H: 0, Perm: perm}, m, fsx.Op{K: "FStat", H: 0})
+				if dev := runCase(c, kt, kind, cs, "u1"); dev != nil {
+					c.Report(dev, Case{FS: kind, Ops: cs, As: "u1"})
+				}
+				c.NonTrivial(vt.Hash64("special", fmt.Sprint(perm, fl), m.String()))
+			}
+		}
+	}
+	c.Extra("special_bits_"+kind, fmt.Sprintf("%d cases: 7 special-bit modes x 3 flag sets x %d modifying ops as the owning non-administrator", n, len(mods)))
 }
 
 func dirSkip(o fsx.Op) bool {
